@@ -19,6 +19,7 @@ pub mod c06;
 pub mod c09;
 pub mod c09_header;
 pub mod c14;
+pub mod c14_more;
 pub mod c05;
 pub mod c05_reenc;
 pub mod c13;
